@@ -20,6 +20,34 @@ fn margin<D: Distance>(normal: &[u8], item: &[u8]) -> f32 {
     D::margin_no_header(&n, &v)
 }
 
+/// The same margin from the definition (all seven metrics: the dot product of the two stored vectors;
+/// for the quantised ones every stored bit, padding included, counts as +1/-1), in f64 on the raw bytes:
+/// (value, bound on what f32 evaluation in any order may deviate, false when f32 partial sums may overflow).
+fn margin_by_definition(metric: crate::metric::Metric, normal: &[u8], item: &[u8]) -> Option<(f64, f64, bool)> {
+    if normal.len() != item.len() {
+        return None;
+    }
+    if metric.is_bq() {
+        let bits = normal.len() as f64 * 8.0;
+        let differing: u32 = normal.iter().zip(item).map(|(a, b)| (a ^ b).count_ones()).sum();
+        return Some((bits - 2.0 * differing as f64, 0.0, true));
+    }
+    let n = normal.len() / 4;
+    let (mut s, mut sa) = (0f64, 0f64);
+    for k in 0..n {
+        let a = f32::from_le_bytes(normal[4 * k..4 * k + 4].try_into().unwrap());
+        let b = f32::from_le_bytes(item[4 * k..4 * k + 4].try_into().unwrap());
+        if !a.is_finite() || !b.is_finite() {
+            return None;
+        }
+        let t = crate::oracle::wide(a) * crate::oracle::wide(b);
+        s += t;
+        sa += t.abs();
+    }
+    let tol = (n as f64 + 8.0) * 1.1920928955078125e-7 * sa + n as f64 * 2f64.powi(-140);
+    Some((s, tol, sa < 1e37))
+}
+
 fn normal_is_zero<D: Distance>(normal: &[u8]) -> bool {
     UnalignedVector::<D::VectorCodec>::from_bytes(normal).unwrap().is_zero()
 }
@@ -85,6 +113,31 @@ pub fn check_routing<D: Distance>(
                             let Some(item) = ix.items.get(&id) else { continue };
                             let mg = margin::<D>(normal, &item.vector);
                             c.inc("routing_margins_checked");
+                            // when the definition leaves no doubt about the side, the crate's margin must say the
+                            // same in the reader's argument order (normal, query) and in the writer's (item, normal)
+                            if let Some((def, tol, safe)) = margin_by_definition(m.metric, normal, &item.vector) {
+                                if safe && def.abs() > tol {
+                                    let mw = margin::<D>(&item.vector, normal);
+                                    for (who, got) in [("the reader's order (normal, query)", mg), ("the writer's order (item, normal)", mw)] {
+                                        let agrees = if def > 0.0 { got > 0.0 } else { got < 0.0 };
+                                        if !agrees {
+                                            return Err(format!(
+                                                "item {id} and the plane of split node {} (tree rooted at {root}): by the definition the margin is {def:e} (±{tol:e}), but margin_no_header in {who} gives {got:e}: a query equal to the item is not sent to the side the item was placed on",
+                                                ch.id
+                                            ));
+                                        }
+                                    }
+                                    c.inc("routing_margins_vs_definition");
+                                    let wrong = if is_left { def > 0.0 } else { def < 0.0 };
+                                    if wrong {
+                                        return Err(format!(
+                                            "item {id} lies in the {} subtree of split node {} (tree rooted at {root}) but by the definition its margin against that plane is {def:e} (±{tol:e})",
+                                            if is_left { "left" } else { "right" },
+                                            ch.id
+                                        ));
+                                    }
+                                }
+                            }
                             if mg == 0.0 || !mg.is_finite() {
                                 c.inc("routing_zero_or_nonfinite_margin_exempt");
                                 all_nonzero = false;
